@@ -1,0 +1,34 @@
+//! Verification hooks, only compiled with `--cfg adf_obdd_verif`.
+//!
+//! A thread-local step counter for the main loop of the nogood-learning search, with an optional
+//! limit, which turns "does not terminate" into a deterministic failure.
+use std::cell::Cell;
+
+thread_local! {
+    static NOGOOD_TICKS: Cell<u64> = const { Cell::new(0) };
+    static NOGOOD_LIMIT: Cell<u64> = const { Cell::new(u64::MAX) };
+}
+
+/// Message of the panic raised when the step limit is exceeded.
+pub const STEP_LIMIT_MSG: &str = "adf_obdd_verif: nogood search exceeded its step limit";
+
+/// Resets the counter and sets the limit for the current thread.
+pub fn nogood_reset(limit: u64) {
+    NOGOOD_TICKS.with(|t| t.set(0));
+    NOGOOD_LIMIT.with(|l| l.set(limit));
+}
+
+/// Returns the number of loop iterations since the last reset on the current thread.
+pub fn nogood_ticks() -> u64 {
+    NOGOOD_TICKS.with(|t| t.get())
+}
+
+pub(crate) fn nogood_tick() {
+    let ticks = NOGOOD_TICKS.with(|t| {
+        t.set(t.get() + 1);
+        t.get()
+    });
+    if ticks > NOGOOD_LIMIT.with(|l| l.get()) {
+        panic!("{}", STEP_LIMIT_MSG);
+    }
+}
